@@ -5,6 +5,7 @@ instances on fake transports sharing the real ``dawgie.context`` lock bit.
 Every poll timer and every delayed ``LoopingCall.stop`` is stepped by hand.
 '''
 
+import copy
 import itertools
 import os
 import pickle
@@ -145,12 +146,25 @@ class Violation(Exception):
         self.step = step
 
 
+# module-level containers of the code under test (none on the pinned tree) start every history as they were at import:
+# a case must not depend on what earlier cases left behind, or its witness would not replay in a fresh process
+_COMMS_STATE = {
+    k: copy.deepcopy(v) for k, v in vars(comms).items() if isinstance(v, (list, dict, set)) and not k.startswith('__')
+}
+
+
+def _reset_module_state():
+    for k, v in _COMMS_STATE.items():
+        setattr(comms, k, copy.deepcopy(v))
+
+
 class World:
     '''executes one history on the real code and checks the oracle per step'''
 
     def __init__(self, nslots=3):
         _PENDING.clear()
         _Engine.install()
+        _reset_module_state()
         dawgie.context.db_lock = False
         self.slots = [None] * nslots
         self.all = []
@@ -158,6 +172,8 @@ class World:
         self.step_no = -1
         self.trace = []
         self.errors = []
+        # ghost: waiters whose poll found the lock free and was not granted, in the current run of consecutive polls
+        self.denied = []
 
     # -- enabledness is decided from the ghost only (never from the code)
     def enabled(self, ev):
@@ -241,18 +257,30 @@ class World:
             raise ValueError(kind)
 
         self._observe()
-        if must_grant and not (self.holder is c):
-            self.fail(
-                'C13.grant',
-                'free-lock-not-granted',
-                {
-                    'polled': c.name,
-                    'holder_after': self.holder.name if self.holder else None,
-                    'db_lock': bool(dawgie.context.db_lock),
-                },
-                'the lock was free and %s was waiting: its poll must grant it'
-                % c.name,
-            )
+        # "whenever the lock is free SOME waiting client is granted it at its next poll": the order among several
+        # waiters is the implementation's choice, so a poll that is not granted is held against the code only once
+        # every live waiter has polled in turn, the lock staying free and nothing else happening in between
+        if must_grant and self.holder is None:
+            if c not in self.denied:
+                self.denied.append(c)
+            waiting = [
+                w for w in self.slots
+                if w is not None and w.alive and w.acquired and w.granted == 0 and not w.asked_release and self._readable(w)
+            ]
+            if all(w in self.denied for w in waiting):
+                self.fail(
+                    'C13.grant',
+                    'free-lock-not-granted',
+                    {
+                        'polled_in_turn': [w.name for w in self.denied],
+                        'waiting': [w.name for w in waiting],
+                        'holder_after': None,
+                        'db_lock': bool(dawgie.context.db_lock),
+                    },
+                    'the lock was free and every waiting client polled: one of them must have been granted it',
+                )
+        else:
+            self.denied = []
         self._invariants()
 
     # -- an exception escaping a callback is handled as Twisted does: a
@@ -639,6 +667,7 @@ class Scene:
     def __init__(self, script):
         _PENDING.clear()
         _Engine.install()
+        _reset_module_state()
         dawgie.context.db_lock = False
         self.script = list(script)
         self.conns = []
